@@ -7603,3 +7603,155 @@ Proof.
   apply (dg_einsum_single (elook (label_sizes [ta] [a]))); assumption.
 Qed.
 
+
+(* ================================================================== *)
+(* PART 8 (ImplicitFacts): one-operand equations with implicit output and with blanks *)
+(* Implicit-output and blank-insensitivity facts for the one-operand einsum. *)
+
+(* ================================================================== *)
+(* I1. implicit output: labels occurring exactly once, sorted          *)
+
+Definition im_implicit_out (lhs : str) : str :=
+  filter (fun s => Nat.eqb (count s lhs) 1) (sorted_set lhs).
+
+Lemma im_in_sorted_set x s : In x (sorted_set s) <-> In x s.
+Proof.
+  unfold sorted_set. rewrite filter_In, memb_In, in_seq. split.
+  - intros [_ H]; exact H.
+  - intros H. split; [|exact H]. split; [lia|].
+    cbn [plus]. apply Nat.lt_succ_r.
+    pose proof (list_max_le s (list_max s)) as [HL _].
+    specialize (HL (le_n _)). rewrite Forall_forall in HL. apply HL, H.
+Qed.
+
+Lemma im_implicit_out_in x lhs : In x (im_implicit_out lhs) <-> count x lhs = 1.
+Proof.
+  unfold im_implicit_out. rewrite filter_In, im_in_sorted_set, Nat.eqb_eq. split.
+  - intros [_ H]; exact H.
+  - intros H. split; [|exact H]. apply dg_count_in. lia.
+Qed.
+
+Lemma im_seq_ssorted n : forall a, StronglySorted lt (seq a n).
+Proof.
+  induction n as [|n IH]; intros a; cbn [seq]; constructor.
+  - apply IH.
+  - apply Forall_forall. intros x Hx. apply in_seq in Hx. lia.
+Qed.
+
+Lemma im_filter_ssorted (g : nat -> bool) l :
+  StronglySorted lt l -> StronglySorted lt (filter g l).
+Proof.
+  induction 1 as [|a l Hs IH Hf]; cbn [filter]; [constructor|].
+  destruct (g a); [|exact IH]. constructor; [exact IH|].
+  apply Forall_forall. intros x Hx. apply filter_In in Hx. destruct Hx as [Hx _].
+  rewrite Forall_forall in Hf. apply Hf, Hx.
+Qed.
+
+Lemma im_sorted_set_ssorted s : StronglySorted lt (sorted_set s).
+Proof. unfold sorted_set. apply im_filter_ssorted, im_seq_ssorted. Qed.
+
+Lemma im_implicit_out_ssorted lhs : StronglySorted lt (im_implicit_out lhs).
+Proof. unfold im_implicit_out. apply im_filter_ssorted, im_sorted_set_ssorted. Qed.
+
+Lemma im_implicit_out_sorted lhs : Sorted lt (im_implicit_out lhs).
+Proof. apply StronglySorted_Sorted, im_implicit_out_ssorted. Qed.
+
+Lemma im_ssorted_nodup l : StronglySorted lt l -> NoDup l.
+Proof.
+  induction 1 as [|a l Hs IH Hf]; constructor; [|exact IH].
+  intros Hin. rewrite Forall_forall in Hf. specialize (Hf a Hin). lia.
+Qed.
+
+Lemma im_implicit_out_nodup lhs : NoDup (im_implicit_out lhs).
+Proof. apply im_ssorted_nodup, im_implicit_out_ssorted. Qed.
+
+Lemma im_implicit_out_incl lhs : incl (im_implicit_out lhs) lhs.
+Proof.
+  intros x Hx. apply im_implicit_out_in in Hx. apply dg_count_in. lia.
+Qed.
+
+Lemma im_implicit_out_labels lhs :
+  Forall (fun c => 4 <= c) lhs -> Forall (fun c => 4 <= c) (im_implicit_out lhs).
+Proof.
+  intros Hl. apply Forall_forall. intros x Hx.
+  rewrite Forall_forall in Hl. apply Hl, im_implicit_out_incl, Hx.
+Qed.
+
+Theorem im_sanitize_implicit lhs :
+  Forall (fun c => 4 <= c) lhs ->
+  sanitize lhs = Some (lhs, im_implicit_out lhs).
+Proof.
+  intros Hl. unfold sanitize.
+  rewrite (ff_remove_all_id SPACE lhs)
+    by (apply ff_labels_notin; [unfold SPACE; lia|exact Hl]).
+  rewrite ff_has_ellipsis_false
+    by (apply ff_labels_notin; [unfold DOT; lia|exact Hl]).
+  assert (Em : memb ARROW lhs = false).
+  { apply memb_false. apply ff_labels_notin; [unfold ARROW; lia|exact Hl]. }
+  rewrite Em. cbn [negb].
+  rewrite (ff_remove_all_id COMMA lhs)
+    by (apply ff_labels_notin; [unfold COMMA; lia|exact Hl]).
+  reflexivity.
+Qed.
+
+Lemma im_einsum_single_same_sanitize e1 e2 t :
+  sanitize e1 = sanitize e2 -> einsum_single e1 t = einsum_single e2 t.
+Proof.
+  intros H. unfold einsum_single, parse_single. rewrite H. reflexivity.
+Qed.
+
+Theorem im_einsum_single_implicit (sz : nat -> nat) lhs t :
+  tshape t = map sz lhs -> wf_tensor t = true ->
+  Forall (fun c => 4 <= c) lhs ->
+  einsum_single lhs t = Some (einsum_ref [lhs] (im_implicit_out lhs) [t]).
+Proof.
+  intros Hsh Hwf Hl.
+  rewrite (im_einsum_single_same_sanitize lhs (eq1 lhs (im_implicit_out lhs)) t).
+  - apply (dg_einsum_single sz); try assumption.
+    + apply im_implicit_out_nodup.
+    + apply im_implicit_out_incl.
+  - rewrite im_sanitize_implicit by exact Hl.
+    rewrite ff_sanitize_explicit;
+      [reflexivity|exact Hl|apply im_implicit_out_labels, Hl].
+Qed.
+
+(* ================================================================== *)
+(* I2. blanks are ignored                                              *)
+
+Lemma im_filter_idem {A} (g : A -> bool) l : filter g (filter g l) = filter g l.
+Proof.
+  induction l as [|a l IH]; [reflexivity|]. cbn [filter].
+  destruct (g a) eqn:E; [|exact IH]. cbn [filter]. rewrite E, IH. reflexivity.
+Qed.
+
+Lemma im_remove_all_idem c s : remove_all c (remove_all c s) = remove_all c s.
+Proof. unfold remove_all. apply im_filter_idem. Qed.
+
+Theorem im_sanitize_blanks e : sanitize e = sanitize (remove_all SPACE e).
+Proof. unfold sanitize. rewrite im_remove_all_idem. reflexivity. Qed.
+
+Theorem im_einsum_single_blanks e t :
+  einsum_single e t = einsum_single (remove_all SPACE e) t.
+Proof. apply im_einsum_single_same_sanitize, im_sanitize_blanks. Qed.
+
+Theorem im_einsum_single_blanks_explicit (sz : nat -> nat) e lhs out t :
+  remove_all SPACE e = eq1 lhs out ->
+  tshape t = map sz lhs -> wf_tensor t = true ->
+  Forall (fun c => 4 <= c) lhs -> NoDup out -> incl out lhs ->
+  einsum_single e t = Some (einsum_ref [lhs] out [t]).
+Proof.
+  intros He Hsh Hwf Hl Hnd Hi.
+  rewrite im_einsum_single_blanks, He.
+  apply (dg_einsum_single sz); assumption.
+Qed.
+
+Theorem im_einsum_single_blanks_implicit (sz : nat -> nat) e lhs t :
+  remove_all SPACE e = lhs ->
+  tshape t = map sz lhs -> wf_tensor t = true ->
+  Forall (fun c => 4 <= c) lhs ->
+  einsum_single e t = Some (einsum_ref [lhs] (im_implicit_out lhs) [t]).
+Proof.
+  intros He Hsh Hwf Hl.
+  rewrite im_einsum_single_blanks, He.
+  apply (im_einsum_single_implicit sz); assumption.
+Qed.
